@@ -152,7 +152,6 @@ def run(ctx):
     ctx.drop('type annotations', 'docstrings')
     ctx.trust('EventEmitter.emit (tools/events.py): calls listeners; listeners do not write Branch\'s private fields (checked by the package-wide frame scan C06.frame)',
               'qset.append / qset.copy / Branch.Index.add / Index.copy / set.copy: fresh-copy and append contracts (C18 / C16)',
-              'Sentence.constants is the set of constants occurring in the sentence (C15 obligation)',
               'Node.worlds yields the int values of world/world1/world2 (straight-line; interpreted in C04 models)',
               'builtin axioms: max of a finite non-empty set, set.update = union, frozenset(x) = set of x, len(s)==0 iff s empty')
     ctx.assume('Python ints are mathematical; constants are ordered by key 4*subscript+index (obligations C06.next.*, C06.order)',
@@ -162,6 +161,10 @@ def run(ctx):
                        'postconditions for every append history (inductive invariant, no bound).  Witness use is checked on the interpreted '
                        'schema of every rule.  A bounded search over real append/copy histories replays refutations.')
     append_obligations(ctx)
+    # premise of append's bookkeeping, under C06's own names: sentence.constants (read by Branch.append) is exactly the set of
+    # constants occurring in the sentence -- C15's obligations on the derived attribute and its lazy cache
+    from checks import c15
+    ctx.restate(c15.run, 'C15.', 'C06.constants.', keep=lambda n: n.endswith('.constants') or '.constants.' in n or n in ('C15.lazy.wrapper', 'C15.Atomic.attributes', 'C15.Predicated.class-attributes'))
     # ---------------- __init__
     try:
         def setup_init(it):
@@ -508,13 +511,23 @@ def _witness_work(lname):
 # ---------------------------------------------------------------- bounded histories on the real Branch (replay search + cross-check)
 
 def _alphabet():
-    from pytableaux.lang import Predicate, Constant, Atomic
+    from pytableaux.lang import Predicate, Constant, Atomic, Quantified, Variable
     from pytableaux.proof import snode, swnode, anode, sdwnode
     F = Predicate(0, 0, 1); G = Predicate(1, 0, 2)
     a, b, c, d, a1 = Constant(0, 0), Constant(1, 0), Constant(2, 0), Constant(3, 0), Constant(0, 1)
     return [('Fa', lambda: snode(F(a))), ('Fb', lambda: snode(F(b))), ('Fc', lambda: snode(F(c))), ('Fd', lambda: snode(F(d))), ('Fa1', lambda: snode(F(a1))),
             ('Gab', lambda: snode(G(a, b))), ('Gca', lambda: snode(G(c, a))), ('A@2', lambda: swnode(Atomic(0, 0), 2)), ('A@0', lambda: swnode(Atomic(0, 0), 0)),
-            ('R01', lambda: anode(0, 1)), ('R20', lambda: anode(2, 0)), ('Fb@1', lambda: sdwnode(F(b), True, 1))]
+            ('R01', lambda: anode(0, 1)), ('R20', lambda: anode(2, 0)), ('Fb@1', lambda: sdwnode(F(b), True, 1)),
+            # compounds whose operands share a constant and differ in another (the branch reads the compound's constants, not the atoms')
+            ('Fa&Gab', lambda: snode(F(a) & G(a, b))), ('Ex(Gxa&Gac)', lambda: snode(Quantified('Existential', Variable(0, 0), G(Variable(0, 0), a) & G(a, c))))]
+
+def walk_constants(s):
+    "the constants occurring in a sentence, by walking its structure (independent of the cached Sentence.constants)"
+    from pytableaux.lang import Predicated, Operated, Quantified, Constant
+    if isinstance(s, Predicated): return {p for p in s.params if isinstance(p, Constant)}
+    if isinstance(s, Operated): return set().union(*[walk_constants(x) for x in s.operands]) if s.operands else set()
+    if isinstance(s, Quantified): return walk_constants(s.sentence)
+    return set()
 
 def check_real(b):
     "the property on a real branch"
@@ -523,7 +536,7 @@ def check_real(b):
     worlds = set()
     for n in b:
         s = n.get('sentence')
-        if s is not None: consts |= set(s.constants)
+        if s is not None: consts |= walk_constants(s)
         worlds |= set(n.worlds())
     if nc in consts: return f'new_constant() = {nc} occurs on the branch'
     if any(w >= nw for w in worlds): return f'new_world() = {nw} but worlds {sorted(worlds)}'
@@ -567,7 +580,7 @@ def bounded_histories(ctx, prefix='C06', depth=None):
         seen[key] = e
     mins = sorted(seen, key=len)[:6]
     ctx.bounded_part(evaluations=n, distinct_nontrivial=dist,
-                     rule='all append histories over a 12-node alphabet (one- and two-place predications over a,b,c,d,a1; world and access nodes) with a copy before the last append; distinct = distinct (constants, worlds) end states',
+                     rule='all append histories over a 14-node alphabet (one- and two-place predications over a,b,c,d,a1, two compounds with overlapping operands; world and access nodes; constants-of-branch by an independent structural walk) with a copy before the last append; distinct = distinct (constants, worlds) end states',
                      bound=f'depth <= {depth}', samples=[dict(history=list(m), failure=seen[m]) for m in mins] or [dict(history=['Fb', 'Fa'], note='example of a history explored; no failure found')], label='real-branch histories')
     for m in mins[:3]:
         clause = f'{prefix}.append.fresh-constant' if 'new_constant' in seen[m] else (f'{prefix}.append.fresh-world' if 'new_world' in seen[m] else f'{prefix}.append.view')
